@@ -542,12 +542,26 @@ func Query(query string, args []any) ([][]Val, error) {
 	if p.kw("where") {
 		where = p.parseOr()
 	}
+	limit := int64(-1)
+	if p.kw("limit") {
+		l := p.next()
+		if l.k != "num" {
+			return nil, errors.New("verifsql: unsupported LIMIT")
+		}
+		limit = 0
+		for _, c := range l.s {
+			limit = limit*10 + int64(c-'0')
+		}
+	}
 	p.punct(";")
 	if p.err != nil || p.peek().k != "eof" {
 		return nil, errors.New("verifsql: unsupported SELECT tail")
 	}
 	var out [][]Val
 	for _, r := range db.Rows {
+		if limit >= 0 && int64(len(out)) >= limit {
+			break
+		}
 		if where == nil || truth(where.eval(r, vals)) {
 			row := make([]Val, len(cols))
 			for i, c := range cols {
@@ -585,4 +599,24 @@ func ScanInto(dest []any, vals []Val) error {
 		}
 	}
 	return nil
+}
+
+// SelectArity returns the number of columns in the select list of a supported SELECT.
+func SelectArity(query string) (int, error) {
+	p := &parser{t: lex(query)}
+	if !p.kw("select") {
+		return 0, errors.New("verifsql: unsupported query")
+	}
+	n := 0
+	for {
+		c := p.next()
+		if c.k != "id" {
+			return 0, errors.New("verifsql: bad column")
+		}
+		n++
+		if !p.punct(",") {
+			break
+		}
+	}
+	return n, nil
 }
